@@ -12,5 +12,7 @@ import "verifharness/bftworld"
 
 func main() {
 	bftworld.PartFraction = 0.55 // the rest of the soft deadline belongs to part 2
+	bftworld.Extra = realAdoption
+	bftworld.ReplayHook = realAdoptionReplay
 	bftworld.Main("C15")
 }
